@@ -99,7 +99,7 @@ type w4MapModel struct {
 	resetsSinceRestart  int
 	allowResets         bool
 	focusKey            int
-	focus               bool // flood-focused run: one metric, mostly creations
+	focus               bool            // flood-focused run: one metric, mostly creations
 	dirtyByReset        map[string]bool // metric -> budget was reset and no mapping created since
 }
 
